@@ -7,7 +7,10 @@ import (
 	"strings"
 	"sync"
 
+	"github.com/go-fed/activity/pub"
+
 	ap "verif/apmodel"
+	"verif/mc"
 )
 
 // one hop of a reply chain
@@ -237,7 +240,7 @@ func C17(tier string) int {
 			}
 		}
 	}
-	res.Rule = fmt.Sprintf("activities whose to/cc/audience hold every sequence of <= %d entries over {owned Collection, owned OrderedCollection, foreign collection, owned non-collection, remote actor}; reply chains of depth 0..%d through inReplyTo/object/target/tag with every embedded / dereferenced-IRI form per link, the final value owned or not, plus chains broken by a missing or unknown-type document, and chains ending in a Link-derived value (Mention named by href only; Link whose id and href disagree, the owned one being the id or only the href); depth limit %v; filter {all, first only, none, last only (filtering the slice it is handed in place), all (reversing it in place)}; delivery histories {A, AA, AB, BAA, ABA} over two local inboxes; %d histories, each a sequence of real requests on one application state; oracle: forwarded (once, on the first delivery) iff an owned (Ordered)Collection is addressed and an owned value lies within the limit; recipients are the members of exactly the collections the filter returned; payload equals the received body; the activity is recorded exactly once; states = distinct application states reached, transitions = requests", maxAddr, maxDepth, limits, len(cases))
+	res.Rule = fmt.Sprintf("activities whose to/cc/audience hold every sequence of <= %d entries over {owned Collection, owned OrderedCollection, foreign collection, owned non-collection, remote actor}; reply chains of depth 0..%d through inReplyTo/object/target/tag with every embedded / dereferenced-IRI form per link, the final value owned or not, plus chains broken by a missing or unknown-type document, and chains ending in a Link-derived value (Mention named by href only; Link whose id and href disagree, the owned one being the id or only the href); depth limit %v; filter {all, first only, none, last only (filtering the slice it is handed in place), all (reversing it in place)}; delivery histories {A, AA, AB, BAA, ABA} over two local inboxes; %d histories, each a sequence of real requests on one application state; oracle: forwarded (once, on the first delivery) iff an owned (Ordered)Collection is addressed and an owned value lies within the limit; recipients are the members of exactly the collections the filter returned; payload equals the received body; the activity is recorded exactly once; plus 16 activities that have a default side effect (Create by IRI / embedded, Update, Delete, Like, Announce, Add, Remove, Follow, Accept, Reject, Undo, Block), with and without application hooks, meeting the three conditions: forwarded once, payload and recorded copy equal to the received activity; states = distinct application states reached, transitions = requests", maxAddr, maxDepth, limits, len(cases))
 	res.Assumptions = []string{"locks are counted, not blocking (a collection addressed twice is C09's known finding)", "a dereferenced document that is not JSON aborts the search with an error and is left to C11"}
 	var mu sync.Mutex
 	states := map[uint64]struct{}{}
@@ -432,6 +435,70 @@ func C17(tier string) int {
 			res.Violate(v.Key, v.What, v.Replay)
 		}
 	})
+	// ---- activities that HAVE a default side effect: the side effect runs on the very value that is
+	// forwarded afterwards, and must leave it as received ----
+	nTyped := 0
+	rn := Emb("Note", "https://r1.example/n/10", "attributedTo", Carol, "content", "x")
+	for _, cb := range []ap.CallbackMode{ap.CBNone, ap.CBWrapped} {
+		for ti, body := range []M{
+			Doc("Create", RAct, "actor", Carol, "object", RNote),
+			Doc("Create", RAct, "actor", Carol, "object", L{RNote, RNote2}),
+			Doc("Create", RAct, "actor", Carol, "object", rn),
+			Doc("Update", RAct, "actor", Carol, "object", rn),
+			Doc("Delete", RAct, "actor", Carol, "object", RNote),
+			Doc("Like", RAct, "actor", Carol, "object", Note1),
+			Doc("Like", RAct, "actor", Carol, "object", L{Note1, Emb("Note", Note2)}),
+			Doc("Announce", RAct, "actor", Carol, "object", Note2),
+			Doc("Add", RAct, "actor", Carol, "object", RNote, "target", Col1),
+			Doc("Remove", RAct, "actor", Carol, "object", Dave, "target", L{Col1, OCol1}),
+			Doc("Follow", RAct, "actor", Carol, "object", Alice),
+			Doc("Accept", RAct, "actor", Carol, "object", Follow1),
+			Doc("Accept", RAct, "actor", Carol, "object", Emb("Follow", Follow1, "actor", Alice, "object", Carol)),
+			Doc("Reject", RAct, "actor", Carol, "object", Follow1),
+			Doc("Undo", RAct, "actor", Carol, "object", "https://r1.example/like/1"),
+			Doc("Block", RAct, "actor", Carol, "object", Alice),
+		} {
+			body["to"] = L{Col1, Carol}
+			body["inReplyTo"] = Note1 // owned: the third condition holds at level 1
+			cb := cb
+			sc := &Scenario{Name: fmt.Sprintf("c17/typed/%v#%d/cb=%d", body["type"], ti, cb), Kind: ap.Both, Entry: "PostInbox", URL: inbox(Alice), Body: body,
+				Tweak: func(a *ap.App) { a.Callbacks = cb; a.OnFollow = pub.OnFollowAutomaticallyAccept; a.MaxFwdDepth = 2 }}
+			out := sc.Exec(mc.NewExec(nil), false)
+			nTyped++
+			res.Case(sc.Name)
+			if out.Panic != nil || out.Err != nil {
+				continue // refused or failing activities are other checks' business
+			}
+			var fw []ap.Delivery
+			for _, d := range out.App.Deliveries {
+				var top map[string]interface{}
+				if json.Unmarshal(d.Payload, &top) == nil && top["id"] == RAct {
+					fw = append(fw, d)
+				}
+			}
+			rep := M{"check": "C17", "part": "typed", "body": body, "callbacks": int(cb)}
+			if len(fw) != 1 {
+				res.Violate(fmt.Sprintf("typed|forward-count=%d", len(fw)), fmt.Sprintf("%s: the three conditions hold; forwarded %d times", sc.Name, len(fw)), rep)
+				continue
+			}
+			var pm map[string]interface{}
+			json.Unmarshal(fw[0].Payload, &pm)
+			bm := deepCopy(body).(map[string]interface{})
+			if !jsonEqualModCtx(normDoc2(bm), normDoc2(pm)) {
+				res.Violate("forward-payload-altered|by-the-default-side-effect|"+fmt.Sprint(body["type"]), fmt.Sprintf("%s: forwarded payload %s differs from the received %s", sc.Name, shortJSON(pm), shortJSON(bm)), rep)
+			}
+			// ... and what was recorded as seen is the received activity too
+			if raw, ok := out.App.Store[RAct]; ok {
+				var sm map[string]interface{}
+				json.Unmarshal(raw, &sm)
+				if !jsonEqualModCtx(normDoc2(bm), normDoc2(sm)) {
+					res.Violate("recorded-activity-altered|by-the-default-side-effect|"+fmt.Sprint(body["type"]), fmt.Sprintf("%s: recorded %s, received %s", sc.Name, shortJSON(sm), shortJSON(bm)), rep)
+				}
+			}
+		}
+	}
+	res.Evaluations += nTyped
+	res.Extra["typed_activities"] = nTyped
 	res.States = len(states)
 	for _, i := range []int{len(cases) / 5, len(cases) / 2, len(cases) - 7} {
 		res.Sample(M{"case": cases[i].String()})
